@@ -108,27 +108,26 @@ ways the Go code shares the storage of large containers:
   plain copy `b = a`; a bare identifier passed as argument (the parameter joins its group, and the
   call's result may alias its arguments and what the body mentions); a container literal holding
   identifiers (`[a, a]`, `{"k": a}`: containment) and reading an element back (`c[0]`, `m.k`);
-  `rest(a)`, `a[i:j]` of ARRAYS; the loop variable of `for e = a`; `x + y` on ARRAYS (append may reuse the left
+  `rest(a)`, `a[i:j]` of ARRAYS (elements only: the sub-slice has no spare capacity, so an append with
+  such a base explains nothing); the loop variable of `for e = a`; `x + y` on ARRAYS (append may reuse the left
   operand's spare capacity; elements are shared).
 FRESH (own storage): literals without identifiers, `*`, every other operator, `+` with a MAP on the
 left (`Append` always builds a new map), and `rest(m)` / `m[i:j]` of a MAP (the pairs are copied) — so `cp = big + {}` puts `cp` alone in a new group.
 A hazardous operation (in-place write through name `n`, or append with base `n`) can explain a
 difference only if, at some point during that input, `n`'s group had another live member. -/
 
-structure Alias where
+/-- one partition of the names in alias groups -/
+structure Part where
   grp : List (String × Nat) := []
   next : Nat := 0
-  fns : List (String × (List String × Node)) := []
   /-- names whose group had at least two members at some point during the current input -/
   shared : List String := []
-  /-- the input ended in an error (some statements did not run): a rebinding keeps the old membership too -/
-  additive : Bool := false
 
-namespace Alias
+namespace Part
 
-def groupOf (a : Alias) (n : String) : Option Nat := a.grp.lookup n
+def groupOf (a : Part) (n : String) : Option Nat := a.grp.lookup n
 
-def mark (a : Alias) : Alias :=
+def mark (a : Part) : Part :=
   let sh := a.grp.filterMap fun (n, g) =>
     if (a.grp.filter fun kv => kv.2 == g).length ≥ 2 && !a.shared.contains n then some n else none
   { a with shared := a.shared ++ sh }
@@ -136,24 +135,46 @@ def mark (a : Alias) : Alias :=
 def setGrp (grp : List (String × Nat)) (n : String) (g : Nat) : List (String × Nat) :=
   (n, g) :: grp.filter (·.1 != n)
 
-/-- `n` is (re)bound to a value that may alias the names `srcs` -/
-def bind (a : Alias) (n : String) (srcs : List String) : Alias :=
-  let srcs := if a.additive then n :: srcs else srcs
+def bind (a : Part) (additive : Bool) (n : String) (srcs : List String) : Part :=
+  let srcs := if additive then n :: srcs else srcs
   match (srcs.filterMap a.groupOf).eraseDups with
   | [] => mark { a with grp := setGrp a.grp n a.next, next := a.next + 1 }
   | t :: others =>
     let grp := a.grp.map fun (m, g) => if others.contains g then (m, t) else (m, g)
     mark { a with grp := setGrp grp n t }
 
-/-- `n` now CONTAINS values that may alias `srcs` (index assignment `n[i] = v`) -/
-def absorb (a : Alias) (n : String) (srcs : List String) : Alias :=
+def absorb (a : Part) (n : String) (srcs : List String) : Part :=
   match ((n :: srcs).filterMap a.groupOf).eraseDups with
   | [] => a
   | t :: others =>
     mark { a with grp := a.grp.map fun (m, g) => if others.contains g then (m, t) else (m, g) }
 
+end Part
+
+/-- two partitions: `el` = names whose values may share ELEMENT storage (every edge), `cap` = names whose
+values may be the same slice header, i.e. share SPARE CAPACITY too (every edge except `rest(a)` / `a[i:j]`,
+which since repo fix e9a0cc1 hand out a sub-slice without spare capacity).  In-place writes are judged on
+`el`, appends on `cap`. -/
+structure Alias where
+  el : Part := {}
+  cap : Part := {}
+  fns : List (String × (List String × Node)) := []
+  /-- the input ended in an error (some statements did not run): a rebinding keeps the old membership too -/
+  additive : Bool := false
+
+namespace Alias
+
+/-- `n` is (re)bound to a value that may share elements with `srcs` and spare capacity with `capSrcs` -/
+def bind (a : Alias) (n : String) (srcs capSrcs : List String) : Alias :=
+  { a with el := a.el.bind a.additive n srcs, cap := a.cap.bind a.additive n capSrcs }
+
+/-- `n` now CONTAINS values that may alias `srcs` (index assignment `n[i] = v`) -/
+def absorb (a : Alias) (n : String) (srcs capSrcs : List String) : Alias :=
+  { a with el := a.el.absorb n srcs, cap := a.cap.absorb n capSrcs }
+
 def remove (a : Alias) (n : String) : Alias :=
-  if a.additive then a else { a with grp := a.grp.filter (·.1 != n) }
+  if a.additive then a else
+  { a with el := { a.el with grp := a.el.grp.filter (·.1 != n) }, cap := { a.cap with grp := a.cap.grp.filter (·.1 != n) } }
 
 end Alias
 
@@ -182,36 +203,37 @@ def mapSide (isMap : String → Option Bool) : Node → Bool
   | _ => false
 
 /-- `isMap n`: the model's dump shows the global `n` bound to a map (`none` = unknown) -/
-partial def sources (a : Alias) (isMap : String → Option Bool) : Node → List String
+partial def sources (capOnly : Bool) (a : Alias) (isMap : String → Option Bool) : Node → List String
   | .ident n => [n]
-  | .arr els => els.flatMap (sources a isMap)
-  | .mapLit ks vs => ks.flatMap (sources a isMap) ++ vs.flatMap (sources a isMap)
+  | .arr els => els.flatMap (sources capOnly a isMap)
+  | .mapLit ks vs => ks.flatMap (sources capOnly a isMap) ++ vs.flatMap (sources capOnly a isMap)
   -- a slice of a MAP copies the pairs (BigMap.Range, repo fix f3e622e); a slice of a large ARRAY shares the backing
   -- array; reading an element (`c[0]`, `m.k`) yields what the container holds
-  | .idx _ l (.inf "COLON" _ _) => if mapSide isMap l then [] else sources a isMap l
-  | .idx _ l _ => sources a isMap l
+  | .idx _ l (.inf "COLON" _ _) => if mapSide isMap l || capOnly then [] else sources capOnly a isMap l
+  | .idx _ l _ => sources capOnly a isMap l
   -- `rest` of a MAP copies the pairs (BigMap.Rest, same fix); `rest` of a large ARRAY is a sub-slice
-  | .builtin "REST" [x] => if mapSide isMap x then [] else sources a isMap x
+  | .builtin "REST" [x] => if mapSide isMap x || capOnly then [] else sources capOnly a isMap x
   | .inf "PLUS" l r =>
     let mapSide := mapSide isMap
     -- map + map builds a new map; with an ARRAY on the left the right operand (whatever it is) becomes an element
-    if mapSide l then [] else sources a isMap l ++ sources a isMap r
+    -- spare capacity: only the LEFT operand's slice may be reused by append
+    if mapSide l then [] else if capOnly then sources capOnly a isMap l else sources capOnly a isMap l ++ sources capOnly a isMap r
   | .inf _ _ _ => []
   | .pre _ _ | .post _ _ | .int _ | .float _ | .str _ | .bool _ | .none | .ctl _ | .comment | .macroLit .. => []
   | .fn .. => []
   | .builtin "LEN" _ => []
-  | .builtin _ ps => ps.flatMap (sources a isMap)
+  | .builtin _ ps => ps.flatMap (sources capOnly a isMap)
   | .call f as =>
-    let fromArgs := as.flatMap (sources a isMap)
+    let fromArgs := as.flatMap (sources capOnly a isMap)
     match f with
     | .ident fname => match a.fns.lookup fname with
       | some (params, body) => fromArgs ++ (identsIn body).filter (!params.contains ·)
       | none => fromArgs
     | .fn _ params _ _ _ body => fromArgs ++ (identsIn body).filter (!params.contains ·)
     | other => fromArgs ++ identsIn other
-  | .ifE _ x y => sources a isMap x ++ sources a isMap y
-  | .stmts l => l.flatMap (sources a isMap)
-  | .ret v => sources a isMap v
+  | .ifE _ x y => sources capOnly a isMap x ++ sources capOnly a isMap y
+  | .stmts l => l.flatMap (sources capOnly a isMap)
+  | .ret v => sources capOnly a isMap v
   | other => identsIn other
 
 /-- effects of evaluating a node on the alias groups (statements in order; loop bodies twice; callee
@@ -225,13 +247,13 @@ partial def walk (isMap : String → Option Bool) (depth : Nat) (a : Alias) : No
         | .fn _ params _ _ _ body, .ident n => { a with fns := (n, (params, body)) :: a.fns }
         | _, _ => a
       match l with
-      | .ident n => a.bind n (sources a isMap r)
-      | .idx _ (.ident n) i => (walk isMap depth a i).absorb n (sources a isMap r)
+      | .ident n => a.bind n (sources false a isMap r) (sources true a isMap r)
+      | .idx _ (.ident n) i => (walk isMap depth a i).absorb n (sources false a isMap r) (sources true a isMap r)
       | other => walk isMap depth a other
     else walk isMap depth (walk isMap depth a l) r
   | .forE c body =>
     let a := match c with
-      | .inf _ (.ident v) r => (walk isMap depth a r).bind v (sources a isMap r)
+      | .inf _ (.ident v) r => (walk isMap depth a r).bind v (sources false a isMap r) (sources true a isMap r)
       | other => walk isMap depth a other
     walk isMap depth (walk isMap depth a body) body
   | .ifE c x y => walk isMap depth (walk isMap depth (walk isMap depth a c) x) y
@@ -254,38 +276,44 @@ partial def walk (isMap : String → Option Bool) (depth : Nat) (a : Alias) : No
       | _ => none
     match callee, depth with
     | some (params, body), d + 1 =>
-      let a := (params.zip as).foldl (fun a (p, arg) => a.bind p (sources a isMap arg)) a
+      let a := (params.zip as).foldl (fun a (p, arg) => a.bind p (sources false a isMap arg) (sources true a isMap arg)) a
       walk isMap d a body
     | _, _ => a
   | _ => a
 
-/-- per input: the names through which an in-place operation may reach storage shared with another
-live name.  `dumps` = the model's observations (for the live globals and their kinds). -/
-def sharedPerInput (asts : List String) (dumps : List String) : List (List String) :=
+/-- per input: (names through which an in-place WRITE may reach element storage shared with another live
+name, names whose spare CAPACITY may be shared with another live name).  `dumps` = the model's observations
+(for the live globals and their kinds). -/
+def sharedPerInput (asts : List String) (dumps : List String) : List (List String × List String) :=
   let rec go (asts : List String) (dumps : List String) (prev : List (String × String)) (a : Alias)
-      (acc : List (List String)) : List (List String) :=
+      (acc : List (List String × List String)) : List (List String × List String) :=
     match asts, dumps with
     | ast :: asts', dump :: dumps' =>
       let cur := globalsOf dump
       -- only live globals survive between inputs (locals and parameters of finished calls do not)
-      let a := { a with grp := a.grp.filter (fun kv => (prev.lookup kv.1).isSome), shared := [],
+      let live := fun (kv : String × Nat) => (prev.lookup kv.1).isSome
+      let a := { a with el := { a.el with grp := a.el.grp.filter live, shared := [] },
+                        cap := { a.cap with grp := a.cap.grp.filter live, shared := [] },
                         additive := field dump "e" != "0" || field dump "p" != "-" }
       let isMap : String → Option Bool := fun n =>
         match prev.lookup n with
         | some v => some (v.startsWith "m[")
         | none => (cur.lookup n).map (·.startsWith "m[")
-      let a := a.mark
+      let a := { a with el := a.el.mark, cap := a.cap.mark }
       let a := match parseAst ast with
         | some prog => walk isMap 6 a prog
         | none => a
-      go asts' dumps' (if dump == "P" then prev else cur) a (acc ++ [a.shared])
+      go asts' dumps' (if dump == "P" then prev else cur) a (acc ++ [(a.el.shared, a.cap.shared)])
     | _, _ => acc
   termination_by asts.length
   go asts dumps [] {} []
 
-/-- keep only the hazards whose name may reach shared storage in that input -/
+/-- keep only the hazards whose name may reach shared storage in that input: element storage for the
+in-place writes, spare capacity for the append class -/
 def sharedHazards (asts : List String) (dumps : List String) (hazards : List (List String)) : List (List String) :=
-  (hazards.zip (sharedPerInput asts dumps)).map fun (hz, sh) => hz.filter fun h => sh.contains (hazardName h)
+  (hazards.zip (sharedPerInput asts dumps)).map fun (hz, (sh, capSh)) => hz.filter fun h =>
+    if hazardClass h == "large-array-append-shares-capacity" then capSh.contains (hazardName h)
+    else sh.contains (hazardName h)
 
 /-- combine the per-configuration classifications: (some difference?, all explained?, class) -/
 def combine (cs : List (Option String)) : Bool × Bool × String :=
